@@ -84,10 +84,13 @@ theorem parse_total (pf : Bytes → Option UInt64) (items : List Item) :
     subst hc
     exact h
 
-/-- every parse error is positioned at a token of the list (or at the zero item) -/
+/-- every parse error is positioned at a token of the list (or at the zero item).  `ErrAt it pos`: at
+    the token's position — or, for stray text between the params of a {call} / the cases of a {switch}
+    (reported through `atTextStart` since /repo ac1c871), at the first non-blank character of that Text
+    token -/
 theorem parse_err_at_token (pf : Bytes → Option UInt64) (items : List Item) (pos : Nat)
     (h : parseFile pf (exprFuel items) items = .error (.err pos)) :
-    pos = 0 ∨ ∃ it ∈ items, it.pos = pos := by
+    pos = 0 ∨ ∃ it ∈ items, ErrAt it pos := by
   have hsafe := top_safe pf True ⟨False, False⟩ (fun it => it ∈ items ∨ it = Item.zero) (Or.inr rfl) items (fun x hx => Or.inl hx)
     (fun _ _ => Or.inl trivial) (fun _ _ _ _ _ => Or.inl trivial) (fun h => absurd h id) (fun h => absurd h id)
   unfold FSafe at hsafe
@@ -103,7 +106,7 @@ theorem parse_err_at_token (pf : Bytes → Option UInt64) (items : List Item) (p
     obtain ⟨it, hit, hp⟩ := hsafe.1
     rcases hit with hm | hz
     · exact Or.inr ⟨it, hm, hp⟩
-    · subst hz; exact Or.inl hp.symm
+    · subst hz; exact Or.inl hp.zero
 
 /-- on a token stream of the lexer's shape every parse error is positioned at one of ITS
     tokens — never at the zero item (position 0) that the closed channel yields: the parser
@@ -112,7 +115,7 @@ theorem parse_err_at_token (pf : Bytes → Option UInt64) (items : List Item) (p
 theorem parse_err_at_lexed_token (pf : Bytes → Option UInt64) (items : List Item) (pos : Nat)
     (hshape : LexShape items)
     (h : parseFile pf (exprFuel items) items = .error (.err pos)) :
-    ∃ it ∈ items, it.pos = pos := by
+    ∃ it ∈ items, ErrAt it pos := by
   have hsafe := top_safe pf True ⟨False, True⟩ (fun it => it ∈ items ∨ it = Item.zero) (Or.inr rfl) items (fun x hx => Or.inl hx)
     (fun _ _ => Or.inl trivial) (fun _ _ _ _ _ => Or.inl trivial) (fun h => absurd h id) (fun _ => hshape)
   unfold FSafe at hsafe
@@ -258,10 +261,11 @@ theorem parse_source_total (pf : Bytes → Option UInt64) (input : Bytes) :
 
 /-- lexer model ∘ parser model: every error is positioned at a token of the lexer — a parser
     error at the token `unexpected` was given or at the parser's current token, a lexical
-    error at the Error item; never at the zero item that the closed channel yields -/
+    error at the Error item; never at the zero item that the closed channel yields.  (`ErrAt`: at the
+    token's position, or at the first non-blank character of a stray Text token.) -/
 theorem parse_source_err_at_token (pf : Bytes → Option UInt64) (input : Bytes) (pos : Nat)
     (h : parseSource pf input = .error (.err pos)) :
-    ∃ is, Lex.lexAll input false = .items is ∧ ∃ it ∈ is, it.pos = pos := by
+    ∃ is, Lex.lexAll input false = .items is ∧ ∃ it ∈ is, ErrAt it pos := by
   unfold parseSource at h
   obtain ⟨is, hl, _⟩ := lex_items input false
   rw [hl] at h
